@@ -154,13 +154,33 @@ def h_ref_multi(ctx):
     return Outcome("ok" if not vs else "bad", vs, nontrivial=("multi", i, j, enc, aad))
 
 
+_ZP = []
+
+
+def zip_plaintexts():
+    """Tiny plaintexts, and plaintexts whose length lies just above a multiple of the buffer sizes a chunked (de)compressor might use,
+    ending in repetitive data (the last DEFLATE match then straddles the chunk boundary)."""
+    if not _ZP:
+        _ZP.extend([("empty", b""), ("one", b"a"), ("nul", b"\x00"), ("small", b"hello hello hello"), ("k1", bytes(range(256)) * 4)])
+        for c in (1024, 4096, 8192, 16384, 32768, 65536):
+            for m, r in ((1, 1), (1, 100), (1, 257), (2, 16), (3, 258)):
+                n = c * m + r
+                if n > 140000:
+                    continue
+                _ZP.append((f"ab*{n}", (b"ab" * n)[:n]))
+                _ZP.append((f"zeros*{n}", b"\0" * n))
+                rec = b'{"id":123456,"note":"' + bytes((i * 7) % 26 + 97 for i in range(200)) + b'"}'
+                _ZP.append((f"record-padded-to-{n}", (rec + b" " * n)[:n]))
+    return _ZP
+
+
 def h_zip_framing(ctx):
     """zip=DEF: joserfc's output is a complete raw DEFLATE stream for every plaintext incl. the empty one; foreign raw streams decrypt."""
     scen.register_drafts()
     enc = ctx.choose("enc", ["A128GCM", "A128CBC-HS256", "C20P"])
     form = ctx.choose("form", c04.FORMS)
     direction = ctx.choose("direction", ["joserfc->ref", "ref->joserfc"])
-    name, pt = ctx.choose("plaintext", [("empty", b""), ("one", b"a"), ("nul", b"\x00"), ("small", b"hello hello hello"), ("k1", bytes(range(256)) * 4)])
+    name, pt = ctx.choose("plaintext", zip_plaintexts())
     kind = "oct%d" % ENC[enc][1]
     jwk = scen.key(kind)
     prot = {"alg": "dir", "enc": enc, "zip": "DEF"}
@@ -179,7 +199,13 @@ def h_zip_framing(ctx):
         tok = rjwe.encrypt(prot, pt, [{"jwk": jwk}], form=form, rand=rjwe.Drbg(repr((enc, form, name)).encode()))
         d = scen.jwe_decrypt(tok, A.jkey(jwk, "dict"), ["dir", enc, "DEF"])
         if not d.ok or d.value[0] != pt:
-            vs.append(viol(f"joserfc cannot decrypt a foreign zip=DEF JWE ({name} plaintext)", f"{enc} {form}: {d.exc!r}"))
+            cls = name if len(pt) < 2000 else name.split("*")[0].split("-to-")[0] + " of a length just above a buffer-size multiple"
+            vs.append(viol(f"joserfc cannot decrypt a foreign zip=DEF JWE, or returns other content ({cls})", f"{enc} {form} {name}: {d.exc!r} {('returned %d of %d octets' % (len(d.value[0]), len(pt))) if d.ok else ''}"))
+        own = scen.jwe_encrypt(form, dict(prot), pt, A.jkey(jwk, "dict"), ["dir", enc, "DEF"])
+        if own.ok:
+            d2 = scen.jwe_decrypt(own.value, A.jkey(jwk, "dict"), ["dir", enc, "DEF"])
+            if not d2.ok or d2.value[0] != pt:
+                vs.append(viol("joserfc does not decrypt its own zip=DEF JWE to the plaintext", f"{enc} {form} {name}: {d2.exc!r}"))
     return Outcome(f"zip:{'ok' if not vs else 'bad'}", vs, nontrivial=(enc, form, direction, name))
 
 
